@@ -149,8 +149,8 @@ TECHNIQUE["C09"] = "def-use, read-dependence, guarded construction (world-set da
 TECHNIQUE["C16"] = "provenance of the decode window's bound over pre-coroutine-transform MIR of the async receive body"
 
 _ADD = {
-    "C16": " No decoder keeps state between calls in a static or thread-local buffer (C11-I4).",
-    "C01": " The seek dominates the write and the write dominates the record on every path (no conditional seek / skipped write); the held-range list is never reset or replaced (C09-G8). A staging file is opened only when none is held (H); the file status Retained is produced only after io::copy(staged file -> opened destination) returned (P). With the CRC option on, every kind of PDU - file data included - is accepted only behind the CRC comparison (C15-M), and transaction ids come from a wrapping read-and-increment so that two live transactions are not cross-wired under one id (C11-I3).",
+    "C16": " No decoder keeps state between calls in a static or thread-local buffer (C11-I4). An inclusive range ending at the byte count takes one byte too many (D).",
+    "C01": " The seek dominates the write and the write dominates the record on every path (no conditional seek / skipped write); the held-range list is never reset or replaced (C09-G8). A staging file is opened only when none is held (H); the file status Retained is produced only after io::copy(staged file -> opened destination) returned (P). With the CRC option on, every kind of PDU - file data included - is accepted only behind the CRC comparison (C15-M), and transaction ids come from a wrapping read-and-increment so that two live transactions are not cross-wired under one id (C11-I3). The sender's segment reader and cursor discipline (C07-S3, S4, S7) are necessary conditions here too.",
     "C04": " The held-range list is only changed by recording a written segment (C09-G8). The report given to the sending user with a received Finished PDU is generated after the transaction took over that PDU's condition (S2). Outside the cancel routine the Finished PDU is built only right after finalisation, so a late PDU cannot rebuild the reported outcome (C13-Q3). Per entry point of a transaction, the kinds of error its own code can construct do not grow (E): an error from a handler ends the task of a still-addressed transaction, after which the daemon starts a fresh one under the same id.",
     "C05": " Items are self-delimiting (L2): a decoder that consults the end of its input (short read, read_to_end) is run only in tail position of its reader. No decoder passes a received name or text through a lossy or normalising conversion (C06-P4). The nested item types an encoder delegates to are exactly those its decoder delegates to (L6); no encoder clamps, saturates, sorts or drops part of a field (L7); a field decoded from bits that the encoder fills from something else is reported (L1). EndOfFile::decode reads the fault-location TLV exactly on the conditions other than 'No error' (L8). Wire integers are decoded unsigned: no signed read, no sign-extending cast in a decoder (L9).",
     "C06": " No decoder uses a lossy or normalising text or path conversion (C06-P4); no decoder decides a value from a short read and end-of-input-delimited decoders run only in tail position (C05-L2) - two necessary conditions of 'whatever is accepted is canonical'. No decoder edits (pop, truncate, retain ...) the octets it has read before they become the decoded value (P4).",
@@ -162,7 +162,7 @@ _ADD = {
     "C12": " The accumulator is initialised from a component only under the test that the component is a Prefix. A sanitised path is not edited afterwards (with_extension, parent, join, ...) before it reaches a filesystem call (R2).",
     "C13": " Each operation in process_request sits behind a probe (exists / is_file / is_dir) of the request's first name. replace_file has read file 2 completely before it overwrites file 1 (Q4). Q2 is shape-independent: it follows the request iterator, the element each next() yields, is_fail() of each response and the branches on it (flag or break). No filestore operation uses a primitive that silently creates missing ancestors (Q5). Each action runs only under its own precondition on the named objects (Q1: exists / is_file / is_dir facts at the operation). The fault handler's verdict is fixed by the action taken and obeyed by its callers (C17-H9/H10), so no request runs for a delivery the handler just cancelled.",
     "C14": " The short-read loop is left only on the empty read (E). No path from the read to consume / the next iteration bypasses the code that advances the carried word position (K). Blocks are cut into 4-byte words only where the carried position is 0 or no bytes remain (A).",
-    "C15": " No decoder normalises a received name or text, so the re-encoding the CRC is computed over is the received encoding (C06-P4). The re-encoding is shortened exactly once before the CRC is computed and PDU::encode computes the CRC over everything written before it (M / W). No encoder alters the value it writes (C05-L7), so the re-encoding of a corrupted PDU cannot reproduce the received octets. The CRC is verified on the re-encoding of what was decoded, so a corrupted PDU is accepted exactly when encode(decode(x)) gives back the received octets for a corrupted x: the codec-agreement rules C05-L1 (bit layout, decoded-only fields) and C05-L6 (nesting) are therefore also run for C15. The accepting comparison is made on the received and the computed CRC themselves, not on a transformed value (M).",
+    "C15": " No decoder normalises a received name or text, so the re-encoding the CRC is computed over is the received encoding (C06-P4). The re-encoding is shortened exactly once before the CRC is computed and PDU::encode computes the CRC over everything written before it (M / W). No encoder alters the value it writes (C05-L7), so the re-encoding of a corrupted PDU cannot reproduce the received octets. The CRC is verified on the re-encoding of what was decoded, so a corrupted PDU is accepted exactly when encode(decode(x)) gives back the received octets for a corrupted x: the codec-agreement rules C05-L1 (bit layout, decoded-only fields) and C05-L6 (nesting) are therefore also run for C15. The accepting comparison is made on the received and the computed CRC themselves, not on a transformed value (M). PDU::encode hands `self.header` and `self.payload` themselves to their encoders (E) and no encoder overwrites a field of the value it encodes (C05-L7).",
     "C17": " In send_naks the NAK count is reset when data arrived since the previous NAK and merely restarted otherwise (H8); Timer::new is called with the like-named configuration fields, builds each counter from the like-named parameters, each restart_/reset_ helper drives the like-named counter, Counter::restart runs update() before un-pausing (T2); Counter::start is used only on freshly created counters (C19-C); plus C10-K4/K6. An expiry of one timer never hides the expiry of another: each poll of a timer is reachable from every outcome of the preceding tests on other timers (W2). The NAK-progress test of H8 reads the receiver's progress counter, which grows exactly by the newly held bytes (C20-P2). The receiver's handler returns true exactly on the Ignore arm (H9) and every caller branches on the verdict (H10); the sender's inactivity reset on reception is conditional on the phase only (H7). Outside the Cancelled phase the timeout dispatch never abandons directly (H11); the pending flag of EOF / Finished is raised only under the ACK timer's expiry (W3).",
     "C18": " In unacknowledged mode prepare_finished is reached only on the true edge of 'metadata held and closure requested' with default false (U5). The sender cannot stall before its EOF: has_pdu_to_send is always true in the SendMetadata / SendData phases (C07-S9).",
     "C19": " Counter::start (un-pause keeping the old start time) is only applied to a counter created in the same function, never to the limit timers (C). Counter::restart accounts for elapsed time before un-pausing, so suspended time is not counted (C17-T2). No decision in the PDU-processing path reads the suspension state except to gate timer arming (R); resume re-arms on every path of the phase each timer the phase relies on, and the receiver's NAK timer / list whenever NAKs apply (D). Commands - Suspend and Resume among them - reach a busy transaction: they are handed over with the waiting send (C11-I7).",
